@@ -169,6 +169,7 @@ def w0(ck: Check, fm: FuncModel, loop: ast.For) -> None:
 def while_loop(ck: Check, fm: FuncModel, loop: ast.While) -> None:
     attempts: list[tuple[str, list[str]]] = []
     for name, rec in (("shrinking container", rec_shrink), ("level worklist", rec_level), ("stack worklist", rec_stack),
+                      ("queue worklist", rec_queue),
                       ("flag-controlled fixpoint", rec_flag), ("geometric budget", rec_geom), ("retry with growing key", rec_retry)):
         res = rec(ck, fm, loop)
         if res is None:
@@ -236,8 +237,20 @@ def rec_level(ck, fm: FuncModel, loop):
         return None  # not a level worklist (no next-level container that is emptied)
     if hdr.id in _within(fm, loop, tb, switch):
         return False, f"a path reaches the next iteration without replacing the level `{X}`"
+    # between the switch and the next push into Y (possibly in the next iteration), Y is re-bound to an empty container
+    fills = {n.id for n in nodes if _calls_on(n, Y, GROW) or
+             (n.kind == "stmt" and isinstance(n.ast, ast.AugAssign) and isinstance(n.ast.target, ast.Name) and n.ast.target.id == Y)}
+    rs = {r.id for r in resets}
+    ids = _loop_ids(fm, loop) | {hdr.id}
     for a in ass:
-        if hdr.id in _within(fm, loop, a, {r.id for r in resets}):
+        seen_, todo = set(), list(fm.cfg.g.successors(a.id))
+        while todo:
+            i = todo.pop()
+            if i in seen_ or i in rs or i not in ids:
+                continue
+            seen_.add(i)
+            todo.extend(fm.cfg.g.successors(i))
+        if seen_ & fills:
             return False, f"`{Y}` is not emptied after it became the current level: its elements are processed again"
     # pushes into Y
     pushes = []
@@ -526,7 +539,20 @@ def rec_stack(ck, fm: FuncModel, loop):
         return None
     nodes = _nodes_in(fm, loop)
     pops = [n for n in nodes if _calls_on(n, X, {"pop"})]
-    pushes = [(n, c) for n in nodes for c in _calls_on(n, X, {"append"})]
+    pushes = []  # (cfg node, pushed element)
+    for n in nodes:
+        for c in _calls_on(n, X, {"append"}):
+            pushes.append((n, c.args[0] if c.args else None))
+        for c in _calls_on(n, X, {"extend"}):
+            if c.args and isinstance(c.args[0], (ast.List, ast.Tuple)):
+                pushes += [(n, e) for e in c.args[0].elts]
+            else:
+                pushes.append((n, None))
+        if n.kind == "stmt" and isinstance(n.ast, ast.AugAssign) and isinstance(n.ast.target, ast.Name) and n.ast.target.id == X:
+            if isinstance(n.ast.op, ast.Add) and isinstance(n.ast.value, (ast.List, ast.Tuple)):
+                pushes += [(n, e) for e in n.ast.value.elts]
+            else:
+                pushes.append((n, None))
     if not pops or not pushes:
         return None
     tb = _tbranch(fm, loop)
@@ -541,8 +567,7 @@ def rec_stack(ck, fm: FuncModel, loop):
         return None
     cur, L = frame
     probs = []
-    for n, c in pushes:
-        a = c.args[0] if c.args else None
+    for n, a in pushes:
         if not (isinstance(a, ast.Tuple) and len(a.elts) == 2):
             probs.append(f"line {n.lineno}: pushed frame is not a (node, successors) pair")
             continue
@@ -582,15 +607,46 @@ def rec_stack(ck, fm: FuncModel, loop):
             probs.append(f"line {n.lineno}: a path schedules `{e0.id}` without inserting it into `{S}`")
             continue
         # e0 (= L[-1] before the pop) is not in S: by enumeration of the paths from the frame pop
-        tr = logic.Translator(lambda x: text(x))
         goal = logic.Not(logic.B(f"in:{L}[-1]|{S}"))
-        bad = paths_imply(fm, fp, d, goal, tr)
+        bad = paths_imply(fm, fp, d, goal, None, canon=True)
         if bad:
             probs.append(f"line {d.lineno}: `{e0.id}` may already be in `{S}` when it is scheduled ({bad}): a node can be "
                          f"visited repeatedly")
     if probs:
         return False, "; ".join(probs[:3])
     return True, f"each iteration pops a frame; re-pushed frames shrink `{L}`; fresh frames only for nodes new to the seen set"
+
+
+# ---- queue worklists -----------------------------------------------------------------------
+def rec_queue(ck, fm: FuncModel, loop):
+    """while Q: x = Q.pop*() ... Q.append(y): every iteration removes an element; every push is justified by a seen
+    set that never shrinks (or by the expanded guard / descent), so each node enters the queue a bounded number of times."""
+    X = _nonempty_container(loop.test)
+    if X is None or _assigns(fm, loop, X):
+        return None
+    nodes = _nodes_in(fm, loop)
+    pops = [n for n in nodes if _calls_on(n, X, {"pop", "popleft"})]
+    pushes = [(n, c.args[0] if c.args else None) for n in nodes for c in _calls_on(n, X, {"append", "appendleft", "add"})]
+    if not pops or not pushes or any(_calls_on(n, X, {"extend", "update", "insert", "extendleft"}) for n in nodes):
+        return None
+    fp = pops[0]
+    if not (fp.kind == "stmt" and isinstance(fp.ast, ast.Assign) and isinstance(fp.ast.targets[0], ast.Name)):
+        return None
+    cur = fp.ast.targets[0].id
+    tb = _tbranch(fm, loop)
+    hdr = fm.cfg.loop_header[loop]
+    if hdr.id in _within(fm, loop, tb, {p.id for p in pops}):
+        return False, "an iteration can end without taking an element out of the queue"
+    why, kinds = [], set()
+    for n, e in pushes:
+        j = _justify_push(ck, fm, loop, loop, cur, n, e, "elem")
+        if j[0]:
+            kinds.add(j[1])
+        else:
+            why.append(f"line {n.lineno}: pushing `{text(e)[:40] if e is not None else '?'}` -- {j[1]}")
+    if why:
+        return False, "; ".join(why[:3])
+    return True, f"queue `{X}`: each iteration removes an element; every push justified by {', '.join(sorted(kinds))}"
 
 
 # ---- flag-controlled fixpoints -------------------------------------------------------------------
